@@ -5,6 +5,9 @@ package flow
 // Accessors added by the verification overlay (read only).
 
 import (
+	"sync/atomic"
+	"unsafe"
+
 	sbase "github.com/alibaba/sentinel-golang/core/stat/base"
 )
 
@@ -30,3 +33,9 @@ func VerifControllers(res string) []VerifController {
 	}
 	return out
 }
+
+// VerifLastPassed reads the throttling checker's last pass time (ns).
+func (c *ThrottlingChecker) VerifLastPassed() int64 { return atomic.LoadInt64(&c.lastPassedTime) }
+
+// VerifLastPassedAddr is the address of that word.
+func (c *ThrottlingChecker) VerifLastPassedAddr() unsafe.Pointer { return unsafe.Pointer(&c.lastPassedTime) }
